@@ -6,11 +6,14 @@ CONSTANTS
   Prefixes = {"", "cls"}
   RuleSets <- RuleSetsAll
   DefaultKinds = {"det", "dyn"}
+  DetRuleSets <- RuleSetsQuick
   Encs = {"json", "msgpack", "event"}
+  Auths = {"ok", "fail"}
   WithReload = TRUE
+  Faithful = TRUE
   UpperHexIsClassic = TRUE
 INVARIANTS TypeOK EnvKeyUsesEnvironment ClassicKeyUsesDataset DocumentedShapes NeverWithoutSampler PrefixSeparates ExtractedIsWhatDeciderReads DecisionOfOneTarget
-PROPERTY DecisionFollowsRules
+PROPERTY DecisionFollowsRulesExceptKnown
 ACTION_CONSTRAINT Dump
 VIEW View
 CHECK_DEADLOCK FALSE
